@@ -159,7 +159,7 @@ def run(p, led, tier):
             bad_ret = []
             for x in refuse:
                 if x.kind == "stmt" and isinstance(x.ast, ast.Return):
-                    if not _is_failure_result(x.ast.value):
+                    if not _is_failure_result(x.ast.value, res, fi):
                         bad_ret.append(x)
             raises = cfg.raise_exit in refuse
             if bad_ret:
@@ -180,7 +180,7 @@ def run(p, led, tier):
                     if node in r:
                         okh = False
                     for x in r:
-                        if x.kind == "stmt" and isinstance(x.ast, ast.Return) and not _is_failure_result(x.ast.value) and x is not node:
+                        if x.kind == "stmt" and isinstance(x.ast, ast.Return) and not _is_failure_result(x.ast.value, res, fi) and x is not node:
                             # returns after the handler must be failures unless they are past the call (not reachable here)
                             if node not in cfg.reach(starts=[cfg.entry], avoid={m_}) or True:
                                 pass
@@ -290,15 +290,22 @@ def _passes_tool(call, toolvar, recv):
     return any(src(recv) in a for a in args)
 
 
-def _is_failure_result(v):
+def _is_failure_result(v, res=None, fi=None, depth=0):
+    """the returned expression is a success=False result: a constructor call with success=False, a helper all of
+    whose returns are such results, or a local bound once to one of those"""
     if v is None:
         return False
     if isinstance(v, ast.Call):
         for k in v.keywords:
             if k.arg == "success" and isinstance(k.value, ast.Constant) and k.value.value is False:
                 return True
-    if isinstance(v, ast.Name):
-        return False
+        if res is not None and fi is not None and depth < 3:
+            tg = [g for g in res.resolve_call(fi, v) if g.name not in ("__init__", "__post_init__")]
+            if tg:
+                return all((rets := [r for r in walk_no_nested(g.node) if isinstance(r, ast.Return)]) and all(_is_failure_result(r.value, res, g, depth + 1) for r in rets) for g in tg)
+    if isinstance(v, ast.Name) and fi is not None and depth < 3:
+        defs = _tool_origin(fi, v.id)
+        return len(defs) == 1 and _is_failure_result(defs[0], res, fi, depth + 1)
     return False
 
 
@@ -316,7 +323,7 @@ def _callers_contain(p, res, fi):
                     names = {dotted(x) for x in (h.type.elts if isinstance(h.type, ast.Tuple) else [h.type])} if h.type is not None else {"BaseException"}
                     if names & {"Exception", "BaseException"}:
                         rets = [r for r in ast.walk(h) if isinstance(r, ast.Return)]
-                        if rets and all(_is_failure_result(r.value) for r in rets):
+                        if rets and all(_is_failure_result(r.value, res, caller) for r in rets):
                             ok = True
             q = parent(q)
         if not ok:
